@@ -3,7 +3,8 @@ Model of the *decision logic* of the bundled DASH validator
 (`dashlive/mpeg/dash/validator/`), as it is in the tree after the `fix:` commits
 3c714d3 + the follow-up (mandatory moov boxes, codec guard), 0554b9e (MPD@profiles/@minBufferTime, Period@id),
 1951de2 (missing @media/S@d/@availabilityStartTime/@timeShiftBufferDepth are
-errors, template errors reachable) and c08f3f9 (no minimumUpdatePeriod).
+errors, template errors reachable), c08f3f9 (no minimumUpdatePeriod), b7314e3 (init segment
+without a sample entry) and a2de2ac (samples that need a missing trex).
 
 Every function is a pure predicate over *parsed* data: what the validator read
 from an HTTP response (`SegObs`, `InitObs`, `Doc`, `Refresh`) and what it
@@ -57,7 +58,10 @@ inductive SegErr
   | saioOffset
   /-- :359 `len(trun.samples) == len(senc.samples)` -/
   | sencCount
-  /-- :154-156 `senc box should not be found in a clear stream` -/
+  /-- :154-156 `senc box should not be found in a clear stream`.  Never produced: the test
+  `'senc' not in moof.traf` asks `ObjectWithFields.__contains__`, i.e. whether the traf object
+  has a *field* called `senc` (dashlive/utils/object_with_fields.py:189-190), not whether it has
+  such a child box – it always holds. -/
   | sencInClear
   /-- :162-165 `Sequence number error` -/
   | seqNum
@@ -210,9 +214,10 @@ def wantStatus (c : RepCtx) : Nat := if c.ranged then 206 else 200
 
 def ctypeErrs (o : SegObs) : List SegErr := if o.ctypeOk then [] else [.contentType]
 
-/-- :150-156 -/
+/-- :150-156; the `else` branch (`check_not_in('senc', moof.traf)`) can never fail, see
+`SegErr.sencInClear` -/
 def encErrs (c : RepCtx) (o : SegObs) : List SegErr :=
-  if c.infoEncrypted then checkSaio o else (if o.senc.isSome then [.sencInClear] else [])
+  if c.infoEncrypted then checkSaio o else []
 
 /-- :162-165 -/
 def seqErrs (e : SegExp) (o : SegObs) : List SegErr :=
